@@ -81,7 +81,7 @@ def protocol(rep):
     body = fn_text(re.escape("parse::parallel_parse("))
     out = []
     locals_ty = dict(re.findall(r"^    let (?:mut )?(_\d+): (.*);$", body, re.M))
-    spawn = [(n, t) for n, (_, t, _) in blocks.items() if re.search(r"= std::thread::spawn::<", t)]
+    spawn = [(n, t) for n, (_, t, _) in blocks.items() if re.search(r"= std::thread::(spawn|Builder::spawn|Builder::spawn_unchecked)::<", t)]
     runs = [n for n, (_, t, _) in blocks.items() if re.search(r"= ignore::WalkParallel::run::<", t)]
     joins = [n for n, (_, t, _) in blocks.items() if re.search(r"= std::thread::JoinHandle::<.*>::join\(", t)]
     if len(runs) != 1:
@@ -93,7 +93,7 @@ def protocol(rep):
     # which spawned closure consumes the receiver?
     consumer_spawns = []
     for n, t in spawn:
-        m = re.search(r"spawn::<\{closure@([^}]*)\}", t)
+        m = re.search(r"spawn(?:_unchecked)?::<\{closure@([^}]*)\}", t)
         if not m:
             continue
         ctext = fn_text(r"parse::parallel_parse::\{closure#\d+\}\(_1: (?:&mut |&)?\{closure@%s\}" % re.escape(m.group(1)))
